@@ -640,6 +640,8 @@ def oracle(evs, rc, lines, stages, fwd_after_liveness):
     q = defaultdict(int)               # stage -> queued count (pushes - polls) for the emptiness check
     closed_at_end = True
     gc_scans, gc_mutators, gc_resumes, gc_stopped = [], None, 0, False
+    after_initial = False              # the previous pause scheduled concurrent work (InitialMark): this pause is the FinalMark of
+                                       # the SAME collection — StopMutators::new_no_scan_roots, the roots were scanned at InitialMark
     in_gc = False
     block = {}
     resumes_total = 0
@@ -722,6 +724,8 @@ def oracle(evs, rc, lines, stages, fwd_after_liveness):
                 out.append(("sched:end-without-start", "PacketEnd without matching PacketStart"))
             running.pop(tid, None)
             ended[ky] += 1
+        elif k == K["GcFinishedEnd"]:
+            after_initial = (b == 1)
         elif k == K["VmStopBegin"]:
             gc_scans, gc_mutators, gc_resumes, gc_stopped, in_gc = [], None, 0, True, True
             weak_rounds, fwd_calls = [], 0
@@ -757,7 +761,10 @@ def oracle(evs, rc, lines, stages, fwd_after_liveness):
                 for st, _ in gc_scans:
                     passes[st] += 1
                 first = next(r["index"] for r in rows if r["is_first_stw"])
-                if gc_mutators is not None and (passes.get(first, 0) != gc_mutators or any(v != gc_mutators for v in passes.values())):
+                if after_initial:
+                    if passes:
+                        out.append(("gc:scan-count", f"the final pause of a concurrent collection scanned mutator roots again: {dict(passes)}"))
+                elif gc_mutators is not None and (passes.get(first, 0) != gc_mutators or any(v != gc_mutators for v in passes.values())):
                     out.append(("gc:scan-count", f"root-scanning passes {dict(passes)} for {gc_mutators} mutators"))
                 if len(passes) > (2 if fwd_after_liveness else 1):
                     out.append(("gc:scan-passes", f"{len(passes)} root-scanning passes in one GC"))
